@@ -26,6 +26,11 @@ func extraGen(kind string, seed int64, prop string, idx int) (*Case, bool) {
 	case "tinysamp":
 		r := caseRand(seed, kind, idx)
 		return &Case{Kind: kind, H: genTiny(r.Intn(tinyTotal(tinyMaxLen)), r)}, true
+	case "tinykeys":
+		return &Case{Kind: kind, H: genTinyK(idx, caseRand(seed, kind, idx))}, true
+	case "tinykeyssamp":
+		r := caseRand(seed, kind, idx)
+		return &Case{Kind: kind, H: genTinyK(r.Intn(tinyKTotal(tinyKMaxLen)), r)}, true
 	case "tinyscope":
 		h := genTinyS(idx, caseRand(seed, kind, idx))
 		if h == nil {
